@@ -39,6 +39,11 @@ func (s *vScanStubFactory) GetDefinitionRegistryPostProcessors() []container.Def
 	return s.procs
 }
 
+// two components whose injection points carry the same tag text with an argument
+type vTagShare struct {
+	F vI1 `wire:",qualifier=zq"`
+}
+
 func VerifC20Scan() {
 	n := nd.Param("N", 2)
 	sf := &vScanStubFactory{reg: support.DefaultDefinitionRegistry(), comps: map[string]any{}}
@@ -47,6 +52,9 @@ func VerifC20Scan() {
 		node := &vNode{name: vNames[i], idx: i}
 		sf.comps[node.name] = node
 		fs.failFor = append(fs.failFor, nd.Bool())
+	}
+	if nd.Param("SHARED", 0) == 1 {
+		sf.comps["ts1"], sf.comps["ts2"] = &vTagShare{}, &vTagShare{}
 	}
 	// a real tag scanner first (it registers the metas concurrently), then the failing scanner
 	sf.procs = []container.DefinitionRegistryPostProcessor{
@@ -64,6 +72,9 @@ func VerifC20Scan() {
 	nd.Assert((err != nil) == (fails > 0), "C09: a failing definition scanner makes start-up fail")
 	if fails > 1 {
 		nd.Cover("several scanners fail at the same time")
+	}
+	if nd.Param("SHARED", 0) == 1 {
+		nd.Cover("components sharing a tag text scanned concurrently")
 	}
 	for i := 0; i < n; i++ {
 		nd.Assert(sf.reg.GetMetaByName(vNames[i]) != nil, "C10: every component is registered whatever the schedule")
